@@ -260,18 +260,21 @@ def run(ctx):
         inst.sites = [sp(b, cr.bb), sp(b, fl.bb)] + [sp(b, s.bb) for s in sy] + [sp(b, rn.bb)]
         bad = []
         Lc = b.origins(cr.args[0])
-        tmp = one(b, r"PathBuf::set_extension$")
-        # the created path is the local that had set_extension applied (tmp), not the joined final path
-        tmp_local = b._origin_locals(tmp.args[0])
+        # the final path: the join with the constant file name of the index; the temporary path: whatever File::create opens
+        joins = [c for c in b.calls if not c.cleanup and c.nname.endswith("Path::join")]
+        finals = [c for c in joins if any(x == "segments.idx" for x in str_consts(b, c.args[1], depth=2))]
+        if len(finals) != 1:
+            raise AnchorMissing("the join that builds <shard>/segments.idx in SegmentIndex::save (%d)" % len(finals))
+        final_join = finals[0]
         cr_locals = b._origin_locals(cr.args[0])
-        final_join = one(b, r"Path::join$")
-        if final_join.dest[0] in cr_locals and not (cr_locals & {l for l in tmp_local if l != final_join.dest[0]}):
+        tmp_local = {l for l in cr_locals if l != final_join.dest[0]}
+        derived_from_final = final_join.dest[0] in cr_locals
+        mutated = any(c.nname.endswith(("PathBuf::set_extension", "PathBuf::set_file_name", "PathBuf::push")) and (b._origin_locals(c.args[0]) & cr_locals) for c in b.calls if not c.cleanup)
+        if derived_from_final and not mutated:
             bad.append(("create-final", "File::create opens the final index path directly", None))
-        if not (cr_locals & tmp_local):
-            bad.append(("create-not-tmp", "File::create argument is not the .tmp path (%s)" % fmt_leaves(Lc), None))
         rn_src = b._origin_locals(rn.args[0])
         rn_dst = b._origin_locals(rn.args[1])
-        if not (rn_src & tmp_local) or final_join.dest[0] not in rn_dst:
+        if not (rn_src & cr_locals) or final_join.dest[0] not in rn_dst or (final_join.dest[0] in rn_src and not mutated):
             bad.append(("rename-args", "rename is not (tmp -> final)", None))
         # order: create -> flush(?) -> sync_all(?) -> rename
         def okedge(c):
